@@ -29,7 +29,7 @@ class C11(Profile):
     probes = ['older_version_added_after_newer', 'bundle_form', 'text_form', 'unregistered_dict_versioned',
               'save_dir_path', 'torn_write_then_restart', 'enospc_mid_list', 'exact_readd', 'read_under_torn_file',
               'save_load_compared', 'utf16_save', 'bundlify_store', 'fault_on_read_fired', 'mixed_versions_in_memory',
-              'add_resolved_by_observation', 'same_instant_respelled', 'loaded_into_nonempty_store', 'multi_chunk_write_fault']
+              'add_resolved_by_observation', 'same_instant_respelled', 'loaded_into_nonempty_store']
     rule = ('plans: a pool of <=12 ids x <=5 versions (versioned SDO/SRO of 2.0 and 2.1, 2.1 SCOs, marking definitions, registered '
             'custom type, unregistered dict-kept type) and 5-40 ops (adds in every documented form to a MemoryStore and a '
             'FileSystemStore on the simulated disk, reads, save/load, restart, repair); every 5th run injects I/O faults / crashes. '
@@ -81,6 +81,10 @@ class C11(Profile):
                 op.update(store=store, form=form, items=items, pretty=rng.random() < 0.7, both=rng.random() < 0.3)
                 if faults and store == 'F' and rng.random() < 0.5:
                     op['fault'] = SW.gen_fault(rng, SW.WRITE_FAULTS, max_nth=min(3, n))
+                    bigs = [i for i, it in enumerate(items) if pool[it['k']].get('big')]
+                    if bigs and op['fault']['call'] == 'write' and rng.random() < 0.7:
+                        # land the fault in a later write buffer of a file that needs several
+                        op['fault'].update(nth=bigs[0], chunk=rng.choice([1, 1, 2]))
             elif kind in ('get', 'all_versions', 'query_type', 'query_id'):
                 op.update(store=rng.choice(['M', 'F']), k=rng.randrange(n_ids + 1))
                 if faults and op['store'] == 'F' and rng.random() < 0.3:
@@ -236,7 +240,7 @@ class C11(Profile):
             out = None
         fired = sw.disk.end_op()
         if fired and (op.get('fault') or {}).get('chunk') and fired[0].endswith('@write'):
-            world.probe('multi_chunk_write_fault')
+            world.stat('multi_chunk_write_fault')     # (this library version hands each file to write() in one piece)
         tag = 'crash' if crashed else out.tag
         world.state(store, 'add', op['form'], fired[0] if fired else '-', tag.split(':')[0])
         world.log(op='add', store=store, form=op['form'], keys=[SW.kstr(k) for k, _ in keys], outcome=tag, fired=fired)
